@@ -58,6 +58,7 @@ struct Thread {  // per task state
   uint32_t blocked_sigs = 0;
   bool cancel_pending = false, cancel_enabled = true;
   bool at_cancel_point = false;
+  bool in_select = false;       // blocked inside select()
   std::vector<void*> cleanup;   // __pthread_unwind_buf_t*
   void* retval = nullptr;
   bool exited = false;
